@@ -179,3 +179,41 @@ PROPS["C04"] = {
     "assumptions": ["total.Start = 0 and every range lies inside the total range (the only way FillGaps calls Gaps)"],
     "outside": ["more than 4 ranges", "totals beyond the stated bounds"],
 }
+
+
+PROPS["C03"] = {
+    "level": "model_checking",
+    "explanation": "the real decode.Decode (newDecoder, field readers, AddChild, FramedFn/LimitedFn/RangeFn, sub formats, nested roots, recoverfn, FillGaps, postProcess) is executed on 10 parameterised decoder programs over symbolic buffers of every length 0..6 bytes (so every truncated / failed form is explored); the resulting *decode.Value graph is walked and the structural invariants asserted",
+    "wall_quick": 1200, "wall_thorough": 7200,
+    "harnesses": [
+        {"entry": "pkg/decode.VerifTreeFlat", "clause": "tree invariants on program flat: four leaf readers (unsigned, signed, raw, bool) of symbolic-choice widths", "bounds": {"buffer_bytes": "0..6 (all truncations)", "widths": "1,8,13,17"}},
+        {"entry": "pkg/decode.VerifTreeNested", "clause": "tree invariants on program nested: struct + array of structs + counted array", "bounds": {"buffer_bytes": "0..6 (all truncations)", "widths": "1,8,13,17"}},
+        {"entry": "pkg/decode.VerifTreeSeek", "clause": "tree invariants on program seek: relative/absolute seeks incl. backwards, past the end and restoring seeks (out-of-order fields)", "bounds": {"buffer_bytes": "0..6 (all truncations)", "widths": "1,8,13,17"}},
+        {"entry": "pkg/decode.VerifTreeFramed", "clause": "tree invariants on program framed: FramedFn / LimitedFn / RangeFn", "bounds": {"buffer_bytes": "0..6 (all truncations)", "widths": "1,8,13,17"}},
+        {"entry": "pkg/decode.VerifTreeRanges", "clause": "tree invariants on program ranges: FieldRangeFn, synthetic fields, struct with only synthetic children", "bounds": {"buffer_bytes": "0..6 (all truncations)", "widths": "1,8,13,17"}},
+        {"entry": "pkg/decode.VerifTreeSubformat", "clause": "tree invariants on program subformat: FieldFormat / FieldFormatLen / FieldFormatRange / FieldFormatOrRawLen with a sub format", "bounds": {"buffer_bytes": "0..6 (all truncations)", "widths": "1,8,13,17"}},
+        {"entry": "pkg/decode.VerifTreeNestedRoot", "clause": "tree invariants on program nestedroot: FieldRootBitBuf / FieldStructRootBitBufFn / FieldFormatBitBuf over a second symbolic buffer", "bounds": {"buffer_bytes": "0..6 (all truncations)", "widths": "1,8,13,17"}},
+        {"entry": "pkg/decode.VerifTreeLoop", "clause": "tree invariants on program loop: FieldArrayLoop until end", "bounds": {"buffer_bytes": "0..6 (all truncations)", "widths": "1,8,13,17"}},
+        {"entry": "pkg/decode.VerifTreeSymLayout", "clause": "tree invariants on program symlayout: fields placed at fully symbolic ranges (ordering and spans decided by the solver)", "bounds": {"buffer_bytes": "0..6 (all truncations)", "widths": "1,8,13,17"}},
+        {"entry": "pkg/decode.VerifTreeErrors", "clause": "tree invariants on program errors: Fatalf, duplicate field name, Errorf with and without force, invalid width", "bounds": {"buffer_bytes": "0..6 (all truncations)", "widths": "1,8,13,17"}}
+    ],
+    "assumptions": [
+        "the quantifier over decoder programs is covered by 10 parameterised programs that between them use every tree-building combinator of pkg/decode; registered formats are not executed here (see C06/C16)",
+        "FieldRangeFn precondition: the caller passes a range inside the buffer (no format uses FieldRangeFn; RangeFn validates)",
+    ],
+    "outside": ["all 132 registered formats", "buffers > 6 bytes", "widths other than 1, 8, 13, 17 in the multi-field programs"],
+}
+
+PROPS["C04"]["harnesses"] += [
+        {"entry": "pkg/decode.VerifCoverFlat", "clause": "FillGaps cover + gap content on program flat", "bounds": {"buffer_bytes": "0..6", "widths": "1,8,13,17"}},
+        {"entry": "pkg/decode.VerifCoverNested", "clause": "FillGaps cover + gap content on program nested", "bounds": {"buffer_bytes": "0..6", "widths": "1,8,13,17"}},
+        {"entry": "pkg/decode.VerifCoverSeek", "clause": "FillGaps cover + gap content on program seek", "bounds": {"buffer_bytes": "0..6", "widths": "1,8,13,17"}},
+        {"entry": "pkg/decode.VerifCoverFramed", "clause": "FillGaps cover + gap content on program framed", "bounds": {"buffer_bytes": "0..6", "widths": "1,8,13,17"}},
+        {"entry": "pkg/decode.VerifCoverRanges", "clause": "FillGaps cover + gap content on program ranges", "bounds": {"buffer_bytes": "0..6", "widths": "1,8,13,17"}},
+        {"entry": "pkg/decode.VerifCoverSubformat", "clause": "FillGaps cover + gap content on program subformat", "bounds": {"buffer_bytes": "0..6", "widths": "1,8,13,17"}},
+        {"entry": "pkg/decode.VerifCoverNestedRoot", "clause": "FillGaps cover + gap content on program nestedroot", "bounds": {"buffer_bytes": "0..6", "widths": "1,8,13,17"}},
+        {"entry": "pkg/decode.VerifCoverLoop", "clause": "FillGaps cover + gap content on program loop", "bounds": {"buffer_bytes": "0..6", "widths": "1,8,13,17"}},
+        {"entry": "pkg/decode.VerifCoverSymLayout", "clause": "FillGaps cover + gap content on program symlayout", "bounds": {"buffer_bytes": "0..6", "widths": "1,8,13,17"}},
+        {"entry": "pkg/decode.VerifCoverErrors", "clause": "FillGaps cover + gap content on program errors", "bounds": {"buffer_bytes": "0..6", "widths": "1,8,13,17"}}
+]
+PROPS["C04"]["explanation"] += "; and D.FillGaps on the decode trees of the 10 C03 programs: cover property for a symbolic bit position over the real leaf ranges, gap readers yield exactly the input bits"
